@@ -385,6 +385,260 @@ def from_elem_same_len(F, site):
     return bool(m) and any("[u16; %s]" % m.group(1) in t for t in dst)
 
 
+# --------------------------------------------------------------------------- lexer / parser
+
+_lex_cache = {}
+
+
+def _lex(F):
+    from lib import lexattrs
+    if F.repo not in _lex_cache:
+        _lex_cache[F.repo] = lexattrs.load(F.repo)
+    return _lex_cache[F.repo]
+
+
+def regexes_of_callback(F, name=None, text=None):
+    out = []
+    for e in _lex(F):
+        cb = e.get("callback") or ""
+        if (name and cb == name) or (text and text in cb):
+            out.append(e)
+    return out
+
+
+def ascii_prefix_for(name=None, text=None, floor=1, within=None):
+    """every token regex bound to the callback starts with exactly one mandatory ASCII character
+    (optionally from the set `within`), so `slice()[1..]` is on a char boundary / strip_prefix succeeds"""
+    from lib import lexattrs
+
+    def pred(F, site):
+        es = regexes_of_callback(F, name, text)
+        if len(es) < floor:
+            return False
+        for e in es:
+            if not lexattrs.first_is_one_ascii_byte(e["atoms"]):
+                return False
+            if within is not None:
+                allowed = lexattrs.set_of(within)
+                if not all(any(lo >= a and hi <= b for a, b in allowed) for lo, hi in e["atoms"][0]["set"]):
+                    return False
+        # the indexing is `[1..]`
+        if site.kind == "call" and site.what.endswith("index") and len(site.ops) == 2:
+            an, fields = panics._agg_name(site.body.expr_of_operand(site.ops[1]))
+            iv = panics.interval(fields[0]) if an == "std::ops::RangeFrom" and fields else None
+            return iv == (1, 1)
+        return True
+    return pred
+
+
+def after_starts_with_ascii(F, site):
+    """`&s[1..]` on the true edge of `s.starts_with(<ASCII char>)`"""
+    b = site.body
+    an, fields = panics._agg_name(b.expr_of_operand(site.ops[1]))
+    if an != "std::ops::RangeFrom" or panics.interval(fields[0]) != (1, 1):
+        return False
+    for d in sorted(b.dominators().get(site.block, ())):
+        t = b.blocks[d]["term"]
+        if t["k"] != "switch" or d == site.block:
+            continue
+        discr = panics._unwrap_var(b.expr_of_operand(t["discr"]))
+        if discr[0] == "call" and (discr[1] or "").endswith("<impl str>::starts_with") and len(discr[2]) == 2:
+            ch = panics.interval(discr[2][1])
+            if ch and ch[0] == ch[1] and ch[0] < 0x80 and b.dominates(t["otherwise"], site.block) \
+                    and all(tb != t["otherwise"] for v, tb in t["values"]):
+                return True
+    return False
+
+
+def expect_on_infallible(F, site):
+    tys = site.term.get("arg_tys") or []
+    return bool(tys) and "std::convert::Infallible>" in tys[0]
+
+
+def callers_within(target_suffix, allowed):
+    def pred(F, site):
+        cs = _all_callsites(F, lambda p: p.endswith(target_suffix))
+        if not cs:
+            return False
+        for b, bi, t in cs:
+            owner = b.owner.path if b.owner else b.path
+            if not any(re.fullmatch(a, owner) for a in allowed):
+                return False
+        return True
+    return pred
+
+
+def index_from_find(F, site):
+    """every index used in the range comes from `str::find` of single-byte patterns on the indexed
+    string, through at most `+ 1` (find returns the byte offset of a match that is one byte long)"""
+    b = site.body
+    an, fields = panics._agg_name(b.expr_of_operand(site.ops[1]))
+    if an not in ("std::ops::Range", "std::ops::RangeFrom", "std::ops::RangeTo") or not fields:
+        return False
+    for f in fields:
+        r = repr(f)
+        if "<impl str>::find" not in r:
+            return False
+        iv = panics.interval(f)
+        if iv is None or iv[1] > 2**63 - 1:
+            return False
+    # the pattern given to find consists of ASCII chars only
+    for bi, t, callee, raw in b.calls():
+        if callee and callee.endswith("<impl str>::find"):
+            an2, elems = panics._agg_name(b.expr_of_operand(t["args"][1]))
+            if an2 == "array" and elems:
+                cs = [panics.interval(x) for x in elems]
+                if all(c and c[0] == c[1] and c[0] < 0x80 for c in cs):
+                    return True
+    return False
+
+
+def parser_index_invariant(F, site=None):
+    """Parser.index <= tokens.len(): `index` is stored only in `advance`, whose last store is
+    `min(index, tokens.len())`, and `tokens` is never modified after construction"""
+    P = "parse::Parser"
+    w_idx = _field_writers(F, P, "index")
+    w_tok = _field_writers(F, P, "tokens")
+    if w_idx != {"parse::Parser::advance"} or w_tok:
+        return False
+    adv = F.bodies["parse::Parser::advance"]
+    last = None
+    for bi, si, s in adv.stmts():
+        if s["k"] == "assign" and any(isinstance(e, dict) and e.get("name") == "index" for e in s["p"]["proj"]):
+            last = (bi, si, s)
+    if last is None:
+        return False
+    e = adv.expr_of_rvalue(last[2]["rv"])
+    r = repr(e)
+    return "Ord::min" in r.replace("std::cmp::", "") and "Vec::<T, A>::len" in r and "'tokens'" in r
+
+
+def spans_balanced(F, site):
+    users = field_users(F, "parse::Parser", "spans")
+    if not users <= {"parse::Parser::spanned", "parse::Parser::advance", "parse::Parser::new"}:
+        return False
+    b = site.body
+    for bi, t, callee, raw in b.calls():
+        if callee and strip_generics(callee).endswith("::Vec::push") and b.dominates(bi, site.block):
+            return True
+    return False
+
+
+# --------------------------------------------------------------------------- object-file readers
+
+def map_chunks_callers_ok(F, site):
+    """every call `map_chunks::<_, N>(take_slice(&mut v, N * x)?, f)` has N in {2, 3} and passes a
+    slice whose length is that same N times something"""
+    cs = _all_callsites(F, lambda p: p.endswith("asm::encoding::map_chunks"))
+    if len(cs) < 2:
+        return False
+    for b, bi, t in cs:
+        f = t["func"]
+        m = re.search(r"(\d+)_usize", (f.get("fn_args") or ""))
+        if not m:
+            return False
+        n = int(m.group(1))
+        if n not in (2, 3):
+            return False
+        data = repr(b.expr_of_operand(t["args"][0]))
+        # the data argument unwraps take_slice(.., Mul(n, ..))
+        if "asm::encoding::take_slice" not in data:
+            return False
+        mm = re.search(r"'MulWithOverflow', \('const', (\d+), 'usize'\)", data)
+        if not mm or int(mm.group(1)) != n:
+            return False
+    return True
+
+
+def guarded_split_at(F, site):
+    """split_at(n) on the false edge of `n > data.len()`"""
+    b = site.body
+    mid = b.expr_of_operand(site.ops[1])
+    for d in sorted(b.dominators().get(site.block, ())):
+        t = b.blocks[d]["term"]
+        if t["k"] != "switch" or d == site.block:
+            continue
+        discr = panics._unwrap_var(b.expr_of_operand(t["discr"]))
+        if discr[0] == "bin" and discr[1] == "Gt" and same_value(discr[2], mid):
+            rhs = panics._unwrap_var(discr[3])
+            if rhs[0] == "call" and (rhs[1] or "").endswith("<impl [T]>::len"):
+                zero = [tb for v, tb in t["values"] if v == 0]
+                if zero and b.dominates(zero[0], site.block) and zero[0] != t["otherwise"]:
+                    return True
+    return False
+
+
+def arg_from(idx, part):
+    def pred(F, site):
+        return part in repr(site.body.expr_of_operand(site.ops[idx]))
+    return pred
+
+
+def adt_built_only_in(adt, allowed):
+    def pred(F, site=None):
+        builders = set()
+        for p, b in F.bodies.items():
+            if b.light:
+                continue
+            for bi, si, s in b.stmts():
+                if s["k"] == "assign" and s["rv"]["k"] == "agg" and s["rv"].get("adt") == adt:
+                    builders.add(p)
+        return bool(builders) and builders <= set(allowed) and not _field_writers(F, adt, "nl_indices")
+    return pred
+
+
+source_info_inv = adt_built_only_in("asm::SourceInfo", ["asm::SourceInfo::from_string"])
+
+
+# --------------------------------------------------------------------------- assembler
+
+def pass2_after_pass1(F, site=None):
+    """ObjectFile::new is only called from assemble/assemble_debug, after SymbolTable::new returned Ok"""
+    cs = _all_callsites(F, lambda p: p == "asm::ObjectFile::new")
+    if len(cs) < 2:
+        return False
+    for b, bi, t in cs:
+        if b.path not in ("asm::assemble", "asm::assemble_debug"):
+            return False
+        ok = False
+        for bj, t2, callee, raw in b.calls():
+            if callee == "asm::SymbolTable::new" and b.dominates(bj, bi):
+                # the sym argument of ObjectFile::new is the unwrapped Ok value of that call
+                if "asm::SymbolTable::new" in repr(b.expr_of_operand(t["args"][1])):
+                    ok = True
+        if not ok:
+            return False
+    return True
+
+
+def lexer_bounds_string_literals(F, site=None):
+    """lex_str_literal returns Ok(buf) only on the edge buf.len() < u16::MAX, and Token::String is
+    only produced by it (so a parsed .stringz has at most 65534 bytes and len + 1 fits a u16)"""
+    b = F.bodies.get("parse::lex::lex_str_literal")
+    if b is None:
+        return False
+    found = False
+    for bi, t in b.terms("switch"):
+        d = panics._unwrap_var(b.expr_of_operand(t["discr"]))
+        if d[0] == "bin" and d[1] == "Lt":
+            l, r = panics._unwrap_var(d[2]), d[3]
+            rv = panics.interval(r)
+            if l[0] == "call" and (l[1] or "").endswith("String::len") and rv and rv[1] <= 65535:
+                # the Ok(..) aggregate must be on the true edge only
+                true_t = t["otherwise"]
+                for bj, sj, s in b.stmts():
+                    if s["k"] == "assign" and s["rv"]["k"] == "agg" and s["rv"].get("variant") == "Ok":
+                        if not b.dominates(true_t, bj) or any(tb == true_t for v, tb in t["values"]):
+                            return False
+                        found = True
+    return found
+
+
+def label_built_only_by_new(F, site=None):
+    return adt_built_only_in("ast::Label", ["ast::Label::new"])(F) and \
+        callers_within("ast::Label::new", [r"<ast::Label as parse::simple::DirectTokenParse>::match_"])(F, None)
+
+
 def E(tag, why, n=1, when=None, scope=None):
     return dict(tag=tag, why=why, n=n, when=when, scope=scope)
 
@@ -392,6 +646,92 @@ def E(tag, why, n=1, when=None, scope=None):
 TRUSTED = {"C02", "C16", "C29", "C26a"}   # properties whose object files come from the assembler
 
 TABLE = {
+    # ------------------------------------------------------------------ assembler (trusted input: a parsed program)
+    "asm::SymbolTable::new|call|<std::vec::Vec<T, A> as std::ops::IndexMut<I>>::index_mut": [
+        E("D-TABLE", "lines[get_line(stmt.span.start)]: a statement starts before the end of the source it was parsed from, so its line is < count_lines() (assumption: `src` is the text the AST was parsed from - the documented contract of assemble_debug)",
+          scope={"C02", "C16", "C26", "C24"})],
+    "asm::ObjectFile::new|call|core::panicking::panic": [
+        E("D-INV", "debug_assert!(current.is_none()): pass 1 rejects a nested .orig (OverlappingOrig) and pass 2 only runs after pass 1 succeeded on the same AST", when=pass2_after_pass1)],
+    "asm::<impl ast::asm::Directive>::word_len|assert|Overflow(Add)": [
+        E("D-INV", "s.len() as u16 + 1: the lexer only yields string literals shorter than 65535 bytes", when=lexer_bounds_string_literals, scope={"C02", "C16", "C26", "C24"})],
+    "asm::SymbolTable::new::{closure#4}::{closure#0}|call|std::rt::panic_fmt": [
+        E("D-INV", "LineSymbolMap::new(lines) cannot fail: a run of consecutive recorded lines lies inside one .orig/.end block (their lines are never recorded), where the location counter only grows", scope={"C02", "C16", "C26", "C24"})],
+    "ast::Label::span|assert|Overflow(Add)": [
+        E("D-INV", "start + name.len(): a Label is only built by Label::new from a token span, whose end is start + len", when=label_built_only_by_new)],
+    "asm::ObjectFile::new::ObjBlock::range|assert|Overflow(Add)": [
+        E("D-INV", "start + words.len(): pass 1 (Cursor::shift) bounds every block end by xFE00 and pass 2 appends exactly word_len words per statement (C01.4)", when=pass2_after_pass1)],
+    # ------------------------------------------------------------------ object-file formats, link
+    "<asm::encoding::TextFormat as asm::encoding::ObjFileFormat>::deserialize|call|core::slice::<impl [T]>::split_at": [
+        E("D-GUARD", "split_at(split_pos): split_pos is the result of position() over the same slice", when=arg_from(1, "Iterator::position"))],
+    "<asm::encoding::TextFormat as asm::encoding::ObjFileFormat>::deserialize|call|std::result::Result::unwrap": [
+        E("D-TYPE", "<String as fmt::Write>::write_str never fails", when=arg_from(0, "<std::string::String as std::fmt::Write>::write_str"))],
+    "<asm::encoding::TextFormat as asm::encoding::ObjFileFormat>::serialize|call|std::result::Result::unwrap": [
+        E("D-TABLE", "_ser only propagates errors of write!/writeln! into a String, which are infallible", when=arg_from(0, "serialize::_ser"))],
+    "asm::encoding::map_chunks|assert|RemainderByZero": [E("D-TYPE", "N is 2 or 3 in every instantiation", when=map_chunks_callers_ok)],
+    "asm::encoding::map_chunks|call|core::slice::<impl [T]>::chunks_exact": [E("D-TYPE", "N is 2 or 3 in every instantiation", when=map_chunks_callers_ok)],
+    "asm::encoding::map_chunks|call|core::panicking::assert_failed": [
+        E("D-GUARD", "assert_eq!(len % N, 0): every caller passes take_slice(.., N * x)", when=map_chunks_callers_ok)],
+    "asm::encoding::map_chunks::{closure#0}|call|std::result::Result::unwrap": [
+        E("D-TABLE", "chunks_exact(N) yields slices of length N, so <[_; N]>::try_from succeeds", when=parent_calls("chunks_exact"))],
+    "asm::encoding::take::{closure#0}|call|std::result::Result::unwrap": [
+        E("D-TABLE", "take_slice(data, N) returns a slice of length N, so <[_; N]>::try_from succeeds", when=parent_calls("take_slice"))],
+    "asm::encoding::try_split_at|call|core::slice::<impl [T]>::split_at": [
+        E("D-GUARD", "split_at(n) on the false edge of n > data.len()", when=guarded_split_at)],
+    "asm::encoding::assert_sorted_no_dup::{closure#0}|call|std::result::Result::unwrap": [
+        E("D-TABLE", "windows(2) yields slices of length 2", when=parent_calls("windows"))],
+    "asm::LineSymbolMap::from_blocks::{closure#1}|call|core::panicking::panic": [
+        E("D-TABLE", "let [a, b] = win: windows(2) yields slices of length 2", when=parent_calls("windows"))],
+    "asm::LineSymbolMap::from_blocks::{closure#2}::{closure#0}|assert|BoundsCheck": [
+        E("D-TABLE", "win[0], win[1]: windows(2) yields slices of length 2", n=2)],
+    "asm::LineSymbolMap::new|assert|Overflow(Sub)": [
+        E("D-TABLE", "i - bl.len(): bl holds the addresses of the bl.len() consecutive Some entries that end just before index i")],
+    "asm::SourceInfo::raw_line_span|call|<std::vec::Vec<T, A> as std::ops::Index<I>>::index": [
+        E("D-GUARD", "nl_indices[line - 1]: after the (0..count_lines()).contains(&line) guard and in the arm line != 0", when=dominated_by_call("::contains"))],
+    "asm::SourceInfo::raw_line_span|assert|Overflow(Add)": [
+        E("D-INV", "nl_indices holds byte offsets into src (only from_string builds a SourceInfo), so +1 cannot overflow", when=source_info_inv)],
+    "asm::SourceInfo::raw_line_span|call|<&usize as std::ops::Add<usize>>::add": [
+        E("D-INV", "nl_indices holds byte offsets into src (only from_string builds a SourceInfo), so +1 cannot overflow", when=source_info_inv)],
+    # ------------------------------------------------------------------ lexer / parser
+    "<parse::lex::Token as logos::Logos<'s>>::lex::goto_::callback|call|std::result::Result::expect": [
+        E("D-TYPE", "expect on Result<Ident, Infallible>: the error type is uninhabited", n=2, when=expect_on_infallible)],
+    "<parse::lex::Token as logos::Logos<'s>>::lex::goto_::callback|call|core::str::traits::<impl std::ops::Index<I> for str>::index": [
+        E("D-INV", "slice()[1..] in the inline Directive callback: its token regex starts with one mandatory ASCII character", n=2,
+          when=ascii_prefix_for(text="[1..]"))],
+    "parse::lex::convert_int_error|call|std::rt::panic_fmt": [
+        E("D-TABLE", "IntErrorKind::Zero is only produced when parsing NonZero types; the callers parse u16/i16",
+          when=callers_within("parse::lex::convert_int_error", [r"parse::lex::lex_(un)?signed_(dec|hex)::\{closure#0\}"]))],
+    "parse::lex::lex_unsigned_dec|call|core::str::traits::<impl std::ops::Index<I> for str>::index": [
+        E("D-GUARD", "&s[1..] on the true edge of s.starts_with('#')", when=after_starts_with_ascii)],
+    "parse::lex::lex_signed_dec|call|core::str::traits::<impl std::ops::Index<I> for str>::index": [
+        E("D-GUARD", "&s[1..] on the true edge of s.starts_with('#')", when=after_starts_with_ascii)],
+    "parse::lex::lex_unsigned_hex|call|std::rt::panic_fmt": [
+        E("D-INV", "strip_prefix(['X','x']) cannot fail: every regex bound to this callback starts with a mandatory [Xx]",
+          when=ascii_prefix_for(name="lex_unsigned_hex", within="Xx"))],
+    "parse::lex::lex_signed_hex|call|std::rt::panic_fmt": [
+        E("D-INV", "strip_prefix(['X','x']) cannot fail: every regex bound to this callback starts with a mandatory [Xx]",
+          when=ascii_prefix_for(name="lex_signed_hex", within="Xx"))],
+    "parse::lex::lex_reg|call|core::str::traits::<impl std::ops::Index<I> for str>::index": [
+        E("D-INV", "slice()[1..]: every regex bound to lex_reg starts with one mandatory ASCII character", when=ascii_prefix_for(name="lex_reg"))],
+    "parse::lex::lex_str_literal|call|core::str::traits::<impl std::ops::Index<I> for str>::index": [
+        E("D-GUARD", "[..i], [i..i+1], [i+1..]: i is the offset returned by find() of one-byte ASCII patterns in the same string", n=3, when=index_from_find)],
+    "parse::lex::lex_str_literal|call|std::rt::panic_fmt": [
+        E("D-TABLE", "`mid` is the one-byte match of find(['\\\\', '\"']), so it is one of the two arms")],
+    "parse::lex::lex_str_literal|assert|Overflow(Sub)": [
+        E("D-TABLE", "rem.len() - remaining.len(): `remaining` is always a suffix of `rem` (only ever re-sliced from itself)")],
+    "parse::Parser::peek|call|<std::vec::Vec<T, A> as std::ops::Index<I>>::index": [
+        E("D-INV", "tokens[index..]: index <= tokens.len() (only advance() stores index, via min(index, len))", when=parser_index_invariant)],
+    "parse::Parser::is_empty|call|<std::vec::Vec<T, A> as std::ops::Index<I>>::index": [
+        E("D-INV", "tokens[index..]: index <= tokens.len() (only advance() stores index, via min(index, len))", when=parser_index_invariant)],
+    "parse::Parser::advance|assert|Overflow(Add)": [
+        E("D-INV", "index += 1 with index <= tokens.len() <= isize::MAX", when=parser_index_invariant)],
+    "parse::Parser::spanned|call|std::option::Option::unwrap": [
+        E("D-GUARD", "spans.pop() after the push in the same function; spans is only touched by spanned (push/pop pair) and advance (last_mut)", when=spans_balanced)],
+    "ast::Label::new|assert|Overflow(Add)": [
+        E("D-INV", "debug_assert_eq!(span.start + name.len(), span.end): only called with a logos token span and that token's text",
+          when=callers_within("ast::Label::new", [r"<ast::Label as parse::simple::DirectTokenParse>::match_"]))],
+    "ast::Label::new|call|core::panicking::assert_failed": [
+        E("D-INV", "debug_assert_eq!(span.start + name.len(), span.end): only called with a logos token span and that token's text",
+          when=callers_within("ast::Label::new", [r"<ast::Label as parse::simple::DirectTokenParse>::match_"]))],
     # ------------------------------------------------------------------ simulator
     "sim::mem::WordFiller::generate_boxed_array::{closure#1}|call|std::rt::panic_fmt": [
         E("D-GUARD", "repeat_with(..) is infinite and take(N) truncates it to exactly N elements, so the Box<[_]> -> Box<[_; N]> conversion cannot fail",
